@@ -155,7 +155,9 @@ def run(tier="quick", seed=0):
     chunks = [c for c in chunks if c]
     ctx = mp.get_context("fork")
     n_plain = 12 if tier == "quick" else 64
-    plain = cases[:: max(1, len(cases) // n_plain)][:n_plain]
+    # (a real lookup costs ~0.2 s per name occurrence: the memo-free sample is drawn from the texts with few occurrences)
+    light = [c for c in cases if sum(c[1].count(ch) for ch in "{,") + 5 <= 24]
+    plain = light[:: max(1, len(light) // n_plain)][:n_plain]
     with ctx.Pool(procs) as pool:
         plain_async = pool.map_async(_nomemo_work, [[c] for c in plain], chunksize=1)
         results = [r for part in pool.map(_work, chunks, chunksize=1) for r in part]
@@ -204,7 +206,7 @@ def run(tier="quick", seed=0):
         bound=("5 event types (D0->K-pi+pi+pi-, conjugate, D0->pi+pi-pi+pi-, D0->K+K-pi+pi-, D+->K-pi+pi+); every selection of "
                "1 or 2 of the 4..14 top-line templates per event type plus sliding windows of 3 and 4; alternative counts 0..3 "
                + ("exhaustive for the first 3 bare names of a selection" if tier == "thorough" else
-                  "exhaustive for the first 2 bare names of a selection (first name only for selections of 2 lines)")
+                  "exhaustive for the first 2 bare names of a selection (first name only for selections of 2 or 4 lines)")
                + " (others cycled); depth <= 3; option absent/0/1 x start/middle/end, 7 layouts, 4 line orders, 4 table variants "
                + ("(option variants exhaustive for selections of 1, 3, 4 lines; layout/order/table cycled)" if tier == "thorough" else "(cycled)")),
         evaluations=len(results) + len(plain_res), distinct_nontrivial=nontrivial,
